@@ -59,16 +59,16 @@ Section Proofs.
   Qed.
 
   (** run(): the value returned is exactly what the child wrote up to the stop *)
-  Theorem run_output_complete fuel events evs :
-    let r := run rx re_search fuel events evs in
+  Theorem run_output_complete fuel Wd events evs : match Wd with Some w => 1 <= w | None => True end ->
+    let r := run rx re_search fuel Wd events evs in
     exists used, evs = used ++ r_rest r /\
       match r_stop r with
       | StopEof | StopTimeout => r_out r = data_of used
       | _ => r_out r ++ pend (r_state r) = data_of used
       end.
   Proof.
-    unfold run.
-    destruct (run_loop_conserves {| ckind := KRe; pats := map fst events; W := None |} (map snd events) I
+    intros HW. unfold run.
+    destruct (run_loop_conserves {| ckind := KRe; pats := map fst events; W := Wd |} (map snd events) HW
                 fuel {| pend := []; buf := [] |} evs [] [] (Inv_same [])) as (used & Hu & HP & _).
     exists used. split; [exact Hu|]. unfold post in HP. cbn [pend app] in HP. exact HP.
   Qed.
